@@ -30,6 +30,7 @@ import Kust.Kv
 import Kust.Subset
 import Kust.RefVar
 import Kust.PathSplit
+import Kust.NsFilter
 import Kust.Gen.Lists
 import Kust.Gen.FieldSpecs
 import Kust.Gen.Lists
@@ -281,6 +282,21 @@ def runFieldSpec (op : String) (a : Json) : Except String Json := do
         | .ok (n', _) => .ok n' | .err c => .err c | .panic c => .panic c
     return outToJson nodeToJson (FieldSpec.apply ns setter spec cr (g "group") (g "version") (g "kind") doc)
   | _ => throw s!"unknown fieldspec op {op}"
+
+def runNs (op : String) (a : Json) : Except String Json := do
+  let q := predOfJson (a.getObjValD "ns")
+  let g (k : String) : String := (a.getObjValD k).getStr?.toOption.getD ""
+  let b (k : String) : Bool := (a.getObjValD k).getBool?.toOption.getD false
+  match op with
+  | "filter" =>
+    let doc ← nodeOfJson (a.getObjValD "doc")
+    let specs ← (← (a.getObjValD "specs").getArr?).toList.mapM fun j => do
+      let h (k : String) : String := (j.getObjValD k).getStr?.toOption.getD ""
+      return (⟨h "group", h "version", h "kind", h "path", (j.getObjValD "create").getBool?.toOption.getD false⟩ : Gen.FieldSpec)
+    let mode ← (a.getObjValD "mode").getNat?
+    let c : NsFilter.Cfg := { ns := g "namespace", unsetOnly := b "unsetOnly", mode := mode, specs := specs }
+    return outToJson nodeToJson (NsFilter.run q c (b "cluster") (g "apiVersion") (g "group") (g "version") (g "kind") doc)
+  | _ => throw s!"unknown ns op {op}"
 
 def runPath (op : String) (a : Json) : Except String Json := do
   let g (k : String) : String := (a.getObjValD k).getStr?.toOption.getD ""
@@ -695,6 +711,7 @@ def dispatch (comp : String) (args : Json) : Except String Json :=
   | ["image", op] => runImage op args
   | ["openapi", op] => runOpenApi op args
   | ["fieldspec", op] => runFieldSpec op args
+  | ["ns", op] => runNs op args
   | ["path", "disk"] => runPathDisk args
   | ["path", "split"] => runPathSplit args
   | ["path", op] => runPath op args
